@@ -175,7 +175,7 @@ def gen(rnd, *, core=False, res_choices=(60, 60, 30, 15), subslot=True, alap=Non
         leaves=True, nested=True, pins=True, ntasks=(2, 8), aligned=True, gaps=True, onstart=True, alts=False,
         crossmid=True, nres=(1, 4), special_start=0.3, weeks=None, days=None, tasklimits=False, odd_zones=False,
         effs=None, max_depth=3, overrun=False, milestones=0.1, single_day_leaves=True, groups=True, prios=0.4,
-        contention=False):
+        contention=False, equal_team_eff=True):
     m = {}
     res = rnd.choice(res_choices)
     m["res"] = res
@@ -318,32 +318,39 @@ def gen(rnd, *, core=False, res_choices=(60, 60, 30, 15), subslot=True, alap=Non
                 t["end"] = base + timedelta(days=span_days - rnd.randrange(1, min(7, span_days)), minutes=rnd.randrange(0, 24 * 60, res))
     if core:
         make_core(rnd, m)
+    elif equal_team_eff:
+        equalize_teams(m)
     assign_decl(m)
     m["acyclic"] = acyclic(m)
     return m
+
+
+def equalize_teams(m, alts=False):
+    """members of one team (and, if alts, primary+alternatives) get one efficiency: unequal teams have no unique
+    effort semantics (DESIGN 3.2). Union-find so that chains of shared members end in a consistent assignment."""
+    parent = {r["id"]: r["id"] for r in m["resources"]}
+
+    def find(x):
+        while parent[x] != x:
+            parent[x] = parent[parent[x]]
+            x = parent[x]
+        return x
+    for t in m["tasks"]:
+        if "effort_min" in t:
+            ids = list(t["alloc"]) + (list(t.get("alt", [])) if alts else [])
+            for rid in ids[1:]:
+                a, b = find(ids[0]), find(rid)
+                if a != b:
+                    parent[max(a, b)] = min(a, b)
+    for r in m["resources"]:
+        r["eff"] = resource(m, find(r["id"]))["eff"]
 
 
 def make_core(rnd, m):
     """core dialect: efforts are whole slots at the (common) efficiency of the allocation, gaps slot multiples,
     ample horizon."""
     res = m["res"]
-    for t in m["tasks"]:
-        if "effort_min" in t and len(t["alloc"]) > 1:
-            e = resource(m, t["alloc"][0])["eff"]
-            for rid in t["alloc"]:
-                resource(m, rid)["eff"] = e
-    # team members may have been chained: iterate to a fixpoint
-    for _ in range(4):
-        for t in m["tasks"]:
-            if "effort_min" in t and len(t["alloc"]) > 1:
-                e = resource(m, t["alloc"][0])["eff"]
-                for rid in t["alloc"]:
-                    resource(m, rid)["eff"] = e
-    for t in m["tasks"]:
-        if "effort_min" in t:
-            e = resource(m, t["alloc"][0])["eff"]
-            for rid in t.get("alt", []):
-                resource(m, rid)["eff"] = e
+    equalize_teams(m, alts=True)
     for t in m["tasks"]:
         if "effort_min" in t:
             e = resource(m, t["alloc"][0])["eff"]
